@@ -271,7 +271,37 @@ EXTRA = {
  'C19': 'Also: no handler in front of the failonerror handler deals with exceptions of the user callable (R19.1).',
  'C20': 'Also: a pre-loop sentinel / the default of next() is never yielded as a row (R20.2).',
 }
+EXTRA_D = {
+ 'C01': 'A pass of sort() served from its caches merges the cached runs with the key function and direction they were sorted '
+        'with (R1.6); memo and completeness flag of cache() are reset together; a local snapshot of a shared attribute is not '
+        'used across a yield.',
+ 'C02': 'Table iterators yield their header before they read a data row, so consulting a header at construction stays lazy '
+        '(R2.6).',
+ 'C04': 'issorted decides with the operator selected from reverse / strict on every branch (R4.5); heap items compare by '
+        'key only; derived operators are also evaluated for unordered pairs.',
+ 'C05': 'Specialised merges only under a test of reverse (R5.2); positional keys for short rows (R5.10); the chunk-file '
+        'cache is published only when complete (R5.11).',
+ 'C06': 'Merge cursors are itertools.groupby over their side and a groupby group is iterated once or materialised (R6.11).',
+ 'C09': 'valuecounter counts every value once (R9.12).',
+ 'C11': 'presorted is not forwarded together with a view derived from the caller\'s table (R11.3).',
+ 'C12': 'An index selection does not consume a field name (R12.3); rename is simultaneous (R12.14).',
+ 'C13': 'Derived comparison operators of Comparable are the stated functions of < and == (R13.8).',
+ 'C15': 'Sources hand the open mode on unchanged (R15.9); records carry every header field, no zip truncation (R15.10).',
+ 'C16': 'Memo and completeness flag of cache() are reset together (R16.4).',
+ 'C17': '`with connection:` counts as a commit (R17.1).',
+ 'C18': 'Iterators served from the chunk files work on the header, file list and key function they were created with (R18.8).',
+ 'C19': 'A policy applied after the try (recorded exception) is analysed too: the record is cleared before each attempt.',
+ 'C20': 'Reductions that need an operand are not applied to a collection filled only inside a data loop (R20.7).',
+}
+ROBUST = (' All rules are evaluated on functions in expanded form (bounded inlining of helpers unknown to the rules) and, where '
+          'they evaluate decision ladders, on canonical tests and effect sequences rather than statement texts (DESIGN.md §9).')
+for _p, _t in EXTRA_D.items():
+    CLAIMS[_p]['text'] = CLAIMS[_p]['text']          # (appended below, after EXTRA)
+for _p in CLAIMS:
+    CLAIMS[_p]['technique'] = CLAIMS[_p]['technique'] + '; bounded helper inlining and shape-independent ladder evaluation (three-valued tests, path enumeration) before the rules are applied'
 for _p, _t in EXTRA.items():
+    CLAIMS[_p]['text'] = CLAIMS[_p]['text'] + ' ' + _t
+for _p, _t in EXTRA_D.items():
     CLAIMS[_p]['text'] = CLAIMS[_p]['text'] + ' ' + _t
 
 PENDING = 'check not yet implemented in this revision (work in progress; see DESIGN.md for the planned rules)'
